@@ -304,7 +304,7 @@ Fixpoint tbl_all_sound_aux (whole l : list (ccode * cid)) (c : cid) : option cco
   | (code, c') :: r =>
     match tbl_all_sound_aux whole r c with
     | Some x => Some x
-    | None => if (c =? c') && (tbl_rev whole code =? c) then Some code else None
+    | None => if c =? c' then (if tbl_rev whole code =? c then Some code else None) else None
     end
   end.
 
